@@ -30,10 +30,10 @@ static LD const TINY_ = 2.2250738585072014e-308L;
 #define VP_K 32
 #endif
 
-enum { L_FIELD, L_POWLOG, L_TRIG, L_ITRIG, L_HYP, L_IHYP, L_REALARG, L_PAIRS, L_Q1, L_Q2, L_Q3, L_Q4, L_NEAR_AXIS, L_ON_AXIS, L_SMALL, L_LARGE, L_NEAR_SWITCH, L_PUSHED_OFF_CUT, L_WIDE_MODULUS, L_ALGO_CORNER, L_LINKED, L_ORIGIN, L_BIG_EXPONENT };
+enum { L_FIELD, L_POWLOG, L_TRIG, L_ITRIG, L_HYP, L_IHYP, L_REALARG, L_PAIRS, L_Q1, L_Q2, L_Q3, L_Q4, L_NEAR_AXIS, L_ON_AXIS, L_SMALL, L_LARGE, L_NEAR_SWITCH, L_PUSHED_OFF_CUT, L_WIDE_MODULUS, L_ALGO_CORNER, L_LINKED, L_ORIGIN, L_BIG_EXPONENT, L_SPECIAL_COMPONENTS };
 static char const *const labels[] = {"field_arithmetic", "sqrt_pow_exp_log", "trigonometric", "inverse_trigonometric", "hyperbolic", "inverse_hyperbolic", "real_argument_variants",
                                      "inverse_pairs", "quadrant_1", "quadrant_2", "quadrant_3", "quadrant_4", "near_axis", "exactly_on_axis", "modulus_lt_0.5", "modulus_gt_2",
-                                     "modulus_near_formula_switch", "moved_off_branch_cut", "modulus_beyond_2^+-27", "inverse_family_algorithm_region_corner", "same_function_again_with_operand_mapped_through_the_library", "argument_is_the_origin", "pow_real_large_or_integer_limit_exponent_base_near_unit_circle", nullptr};
+                                     "modulus_near_formula_switch", "moved_off_branch_cut", "modulus_beyond_2^+-27", "inverse_family_algorithm_region_corner", "same_function_again_with_operand_mapped_through_the_library", "argument_is_the_origin", "pow_real_large_or_integer_limit_exponent_base_near_unit_circle", "both_components_from_a_pool_of_named_constants", nullptr};
 static char const *const metrics[] = {"field_err", "powlog_err", "trig_err", "itrig_err", "hyp_err", "ihyp_err", "realarg_err", "pairs_err", nullptr};
 static uint8_t const dict[] = {0, 1, 2, 3, 4, 5, 6, 7};
 static vp_info const info = {"C10", VP_CFG, "", labels, metrics, 96, dict, sizeof(dict)};
@@ -206,6 +206,20 @@ static a_complex gen_z(Tape &t, Ctx &cx, bool &offaxis_interesting, bool wide = 
         z.imag = 0;
         cx.label(L_ORIGIN);
         g_origin = true;
+    }
+    else if (acb >= 238)
+    {
+        // both components independently from a pool of constants that code may single out (e, 2, 10, pi, ...): the point as a
+        // whole is an ordinary one
+        static double const pool[] = {2.718281828459045, 2.0, 10.0, 1.0, 0.5, 3.141592653589793, 1.5707963267948966, 0.6931471805599453,
+                                      1.4142135623730951, 0.36787944117144233, 3.0, 0.1};
+        uint8_t pb = t.u8();
+        z.real = a_real(pool[pb % 12]);
+        z.imag = a_real(pool[(pb / 12) % 12]);
+        if (pb & 0x80) { z.real = -z.real; }
+        if (t.coin()) { z.imag = -z.imag; }
+        cx.label(L_SPECIAL_COMPONENTS);
+        offaxis_interesting = true;
     }
     else if (ac < 5)
     {
